@@ -95,6 +95,16 @@ def _(c):
     c.returns(lambda a, r: r == (_dt.date(a.year, 1, 1).toordinal() - DT.EPOCH if a.year <= 9999 else DT.MAX_ORD + 1))
 
 
+@contract("pyoda_time.calendars._g_j_year_month_day_calculator:_GJYearMonthDayCalculator._get_months_in_year", "C15", "C17", name="A5 (Gregorian part) discharged: every Gregorian/ISO year has 12 months (years -9999..10000)")
+def _(c):
+    from pyoda_time import CalendarSystem
+
+    c.arg("self", Int()).arg("year", Int())
+    c.ground = lambda: [{"self": CalendarSystem.gregorian._year_month_day_calculator, "year": y} for y in range(-9999, 10001)]
+    c.ground_chunks = 4
+    c.returns(lambda a, r: r == 12)
+
+
 def _greg_months():
     from pyoda_time import CalendarSystem
 
